@@ -58,6 +58,11 @@ BENIGN = [
     'next((r.item for r in orders), "none")', 'orders[0].item', 'extract("(\\\\d+)")', 'split(" ", 0)', 'regex_replace(description, "N", "M")',
     'uppercase(field.kind)', '(m := [r for r in orders]) and len(m) > 0', 'max(1, 2)', 'min(r.qty for r in orders)', 'abs(amount)', 'round(amount)',
     'description.lower()', 'description.replace("N", "X")', 'true', 'exists(field.kind)', 'fuzzy("NETFLX")', 'normalized("NETFLIX")',
+    # attributes of values (dates, strings, rows): data or ExpressionError, never a method object; comparisons leave the parsed tree alone
+    'txn.date.weekday', 'date.weekday', 'txn.date.year', 'date.month', 'date.day', 'txn.date.isoformat', 'date.replace', 'description.upper', 'field.kind.lower',
+    'trim(date.weekday)', 'trim(txn.date.year)', '[r.when.weekday for r in orders]', 'orders[0].when.year', 'orders[0].item.upper',
+    'date >= "2025-01-01"', '"2025-01-01" <= date', 'date == "2025-01-06"', 'date >= "2025-01-01" and date < "2026-01-01"', 'label >= "2025-01-01"',
+    '[r.item for r in orders if r.when >= "2025-01-01"]',
 ]
 SECTION_EXPRS = ['total > 5', 'months', 'tags', 'payments', 'category', 'cv', 'sum(by("month"))', 'max(sum(by("month")))', 'period("month")',
                  'self', 'ctx', 'functions', 'get_function', 'transactions', 'variables', 'period_data', '__class__', 'payments.__class__',
@@ -86,7 +91,7 @@ def leaky(s):
 
 def fresh_inputs():
     txn = {'description': 'NETFLIX.COM 77', 'amount': 15.5, 'date': date(2025, 1, 6), 'field': {'kind': 'Wire'}, 'source': 'Amex', 'location': 'X'}
-    rows = {'orders': [{'id': '77', 'item': 'Cable', 'qty': 2}, {'id': '78', 'item': 'Mouse', 'qty': 1}]}
+    rows = {'orders': [{'id': '77', 'item': 'Cable', 'qty': 2, 'when': date(2025, 1, 2)}, {'id': '78', 'item': 'Mouse', 'qty': 1, 'when': date(2024, 12, 30)}]}
     variables = {'big': True, 'label': 'x'}
     return txn, rows, variables
 
